@@ -49,6 +49,25 @@ class Runner:
             self.fns[key] = f
         return f
 
+    def cat_addrs(self, term):
+        """address universe of a sub-program term (static structure only; mirrors Addrs of the spec for the
+        shapes that occur as callees in the catalogue)."""
+        k = term["k"]
+        if k in ("dist", "cat"):
+            return [[]]
+        if k == "static":
+            return [s["addr"] + a for s in term["sites"] for a in self.cat_addrs(s["callee"])]
+        if k in ("closure", "mask", "dimap"):
+            return self.cat_addrs(term["subs"][0])
+        if k in ("switch", "orelse"):
+            out = []
+            for q in term["subs"]:
+                for a in self.cat_addrs(q):
+                    if a not in out:
+                        out.append(a)
+            return out
+        return [[str(i)] + a for i in range(term["n"]) for a in self.cat_addrs(term["subs"][0])]
+
     # -- projection
     def proj_trace(self, pid, tr):
         e = self.cat[pid]
@@ -60,6 +79,8 @@ class Runner:
         }
 
     def self_assess(self, pid, tr):
+        if "assess" not in self.want:
+            return {"status": "none", "score": 0, "ret": gb.NN}
         try:
             f = self.fn(_skey(pid, "selfassess"), lambda: (lambda t: t.get_gen_fn().assess(t.get_choices(), t.get_args())))
             s, r = f(tr)
@@ -95,14 +116,14 @@ class Runner:
         return out
 
     # -- requests
-    def make_request(self, rq, p, vals, idx):
+    def make_request(self, rq, p, vals, idx, flags=None):
         from genjax import Update
         from genjax._src.core.generative.requests import EmptyRequest, Regenerate, DiffAnnotate
         from genjax._src.core.generative.concepts import IndexRequest
         op = rq["op"]
         cons = rq.get("cons", [])
         if op == "update":
-            return Update(gb.build_cons(cons, vals))
+            return Update(gb.build_cons(cons, vals, flags))
         if op == "regenerate":
             return Regenerate(gb.build_sel(rq["sel"]))
         if op == "empty":
@@ -152,6 +173,7 @@ class Runner:
         e = self.cat[pid]
         p = e["p"]
         key = jax.random.key(int(case["key"]))
+        self.want = set(case.get("want", ["assess", "undo", "alt"]))
         tr = None
         cur_argsV = None
         for seq, rq in enumerate(case["ops"]):
@@ -163,7 +185,8 @@ class Runner:
                   "pre": self.proj_trace(pid, tr) if tr is not None else T0, "post": T0, "w": 0,
                   "assess": {"status": "none", "score": 0, "ret": gb.NN}, "disc": [], "hasdisc": False,
                   "retdiff": [], "undo": {"status": "none", "post": T0, "w": 0},
-                  "alt": {"status": "none", "post": T0, "w": 0}, "w2": 0, "haspre": tr is not None, "extra": []}
+                  "alt": {"status": "none", "post": T0, "w": 0}, "alt2": {"status": "none", "post": T0, "w": 0}, "flagmode": "none",
+                  "subt": {"choices": [], "score": 0}, "w2": 0, "haspre": tr is not None, "extra": []}
             try:
                 newtr = self.step(ev, rq, e, p, tr, cur_argsV, k1, k2, k3)
             except Exception as ex:
@@ -185,8 +208,15 @@ class Runner:
         gf = self.prog(pid)
         op = rq["op"]
         cons = rq.get("cons", [])
-        struct = [[c["p"], c["f"]] for c in cons]
+        masked = any(c["f"] in ("T", "F") for c in cons)
+        traced_flags = masked and (ev["tid"] % 2 == 1)
+        struct = [[c["p"], c["f"] if not traced_flags else ("M" if c["f"] != "-" else "-")] for c in cons]
         vals = [jnp.array(c["v"], dtype=jnp.int32) for c in cons]
+        flags = [jnp.array(c["f"] == "T") for c in cons] if traced_flags else None
+        ev["flagmode"] = "traced" if traced_flags else ("concrete" if masked else "none")
+        plain = [dict(c, f="-") for c in cons if c["f"] != "F"]
+        pvals = [jnp.array(c["v"], dtype=jnp.int32) for c in plain]
+        pstruct = [[c["p"], "-"] for c in plain]
         if op in ("simulate", "generate"):
             argsV = e["as"][rq["a"] - 1]
             args = gb.call_args(p, argsV)
@@ -194,19 +224,42 @@ class Runner:
             if op == "simulate":
                 new = self.fn(_skey(pid, "sim"), lambda: (lambda k, a: gf.simulate(k, a)))(k1, args)
                 ev["post"] = self.proj_trace(pid, new)
-                ch, sc, rv = self.fn(_skey(pid, "propose"), lambda: (lambda k, a: gf.propose(k, a)))(k1, args)
-                ev["alt"] = {"status": "ok", "w": 0, "post": {"args": ev["post"]["args"], "choices": gb.proj_chm(ch, e["addrs"]),
+                if "alt" in self.want:
+                  ch, sc, rv = self.fn(_skey(pid, "propose"), lambda: (lambda k, a: gf.propose(k, a)))(k1, args)
+                  ev["alt"] = {"status": "ok", "w": 0, "post": {"args": ev["post"]["args"], "choices": gb.proj_chm(ch, e["addrs"]),
                                                               "score": gb.fx(sc), "ret": gb.proj_val(rv)}}
             else:
-                new, w = self.fn(_skey(pid, "imp", struct), lambda: (lambda k, v, a: gf.importance(k, gb.build_cons(cons, v), a)))(k1, vals, args)
+                new, w = self.fn(_skey(pid, "imp", struct), lambda: (lambda k, v, fl, a: gf.importance(k, gb.build_cons(cons, v, fl), a)))(k1, vals, flags, args)
                 ev["post"] = self.proj_trace(pid, new)
                 ev["w"] = gb.fx(w)
-                new2, w2 = self.fn(_skey(pid, "gen", struct), lambda: (lambda k, v, a: gf.generate(k, gb.build_cons(cons, v), a)))(k1, vals, args)
-                ev["alt"] = {"status": "ok", "w": gb.fx(w2), "post": self.proj_trace(pid, new2)}
+                if masked and "maskeq" in self.want:
+                    n3, w3 = self.fn(_skey(pid, "imp", pstruct), lambda: (lambda k, v, fl, a: gf.importance(k, gb.build_cons(plain, v, fl), a)))(k1, pvals, None, args)
+                    ev["alt2"] = {"status": "ok", "w": gb.fx(w3), "post": self.proj_trace(pid, n3)}
+                if "alt" in self.want:
+                    new2, w2 = self.fn(_skey(pid, "gen", struct), lambda: (lambda k, v, a: gf.generate(k, gb.build_cons(cons, v), a)))(k1, vals, args)
+                    ev["alt"] = {"status": "ok", "w": gb.fx(w2), "post": self.proj_trace(pid, new2)}
             ev["assess"] = self.self_assess(pid, new)
             return new
+        if op == "assess":
+            argsV = e["as"][rq["a"] - 1] if rq.get("a", 0) > 0 else (cur_argsV or e["as"][0])
+            args = gb.call_args(p, argsV)
+            ev["reqargs"] = argsV
+            ev["post"] = ev["pre"]
+            sc, rv = self.fn(_skey(pid, "assess", struct), lambda: (lambda v, a: gf.assess(gb.build_cons(cons, v), a)))(vals, args)
+            ev["w"] = gb.fx(sc)
+            ev["subt"] = {"choices": [], "score": 0, "ret": gb.proj_val(rv)}
+            return None
         if tr is None:
             raise RuntimeError("no trace")
+        if op == "subtrace":
+            layer = p if p["k"] == "static" else p["subs"][0]
+            site = layer["sites"][rq["idx"] % len(layer["sites"])]
+            ev["extra"] = site["addr"]
+            ev["post"] = ev["pre"]
+            st = tr.get_subtrace(gb.addr_py(site["addr"]))
+            ev["subt"] = {"choices": gb.proj_chm_batched(st.get_choices(), self.cat_addrs(site["callee"])),
+                          "score": gb.fx(jnp.sum(st.get_score())), "ret": gb.NN}
+            return None
         if op == "project":
             sel = gb.build_sel(rq["sel"])
             w, w2 = self.fn(_skey(pid, "project", rq["sel"]), lambda: (lambda k, t: (t.project(k, sel), t.project(k, ~sel))))(k1, tr)
@@ -232,13 +285,21 @@ class Runner:
         rkey = [op, rq.get("sub", ""), struct, rq["sel"] if op in ("regenerate", "index", "static") else None,
                 rq.get("idx", 0) if op == "static" else None, tags]
 
-        def mk_edit():
-            def f(k, t, v, i, a):
-                req = self.make_request(rq, p, v, i)
+        def mk_edit(rq_, ):
+            def f(k, t, v, fl, i, a):
+                req = self.make_request(rq_, p, v, i, fl)
                 return req.edit(k, t, self.argdiffs(a, tags))
             return f
 
-        new, w, retdiff, bwd = self.fn(_skey(pid, "edit", rkey), mk_edit)(k1, tr, vals, idx, new_args)
+        new, w, retdiff, bwd = self.fn(_skey(pid, "edit", rkey), lambda: mk_edit(rq))(k1, tr, vals, flags, idx, new_args)
+        if masked and "maskeq" in self.want and op == "update":
+            try:
+                rq2 = dict(rq, cons=plain)
+                rkey2 = [op, "", pstruct, None, None, tags]
+                n3, w3, _, _ = self.fn(_skey(pid, "edit", rkey2), lambda: mk_edit(rq2))(k1, tr, pvals, None, idx, new_args)
+                ev["alt2"] = {"status": "ok", "w": gb.fx(w3), "post": self.proj_trace(pid, n3)}
+            except Exception as ex:
+                ev["alt2"] = {"status": "raised:" + type(ex).__name__, "w": 0, "post": T0}
         ev["post"] = self.proj_trace(pid, new)
         ev["w"] = gb.fx(w)
         ev["assess"] = self.self_assess(pid, new)
@@ -247,27 +308,32 @@ class Runner:
             ev["disc"] = gb.proj_chm(bwd.constraint, e["addrs"])
             ev["hasdisc"] = True
         # C38: the derived entry points with the same key
-        if op in ("update", "regenerate", "empty", "diffannotate"):
+        if op in ("update", "regenerate", "empty", "diffannotate") and "alt" in self.want:
             try:
                 if op == "update":
                     def mk_alt():
-                        return lambda k, t, v, a: t.update(k, gb.build_cons(cons, v), self.argdiffs(a, tags))
-                    n2, w2, _, _ = self.fn(_skey(pid, "alt-update", rkey), mk_alt)(k1, tr, vals, new_args)
+                        return lambda k, t, v, fl, a: t.update(k, gb.build_cons(cons, v, fl), self.argdiffs(a, tags))
+                    n2, w2, _, _ = self.fn(_skey(pid, "alt-update", rkey), mk_alt)(k1, tr, vals, flags, new_args)
                 else:
                     def mk_alt():
-                        return lambda k, t, v, i, a: t.edit(k, self.make_request(rq, p, v, i), self.argdiffs(a, tags))
-                    n2, w2, _, _ = self.fn(_skey(pid, "alt-edit", rkey), mk_alt)(k1, tr, vals, idx, new_args)
+                        return lambda k, t, v, fl, i, a: t.edit(k, self.make_request(rq, p, v, i, fl), self.argdiffs(a, tags))
+                    n2, w2, _, _ = self.fn(_skey(pid, "alt-edit", rkey), mk_alt)(k1, tr, vals, flags, idx, new_args)
                 ev["alt"] = {"status": "ok", "w": gb.fx(w2), "post": self.proj_trace(pid, n2)}
             except Exception as ex:
                 ev["alt"] = {"status": "raised:" + type(ex).__name__, "w": 0, "post": T0}
         # C06: apply the backward request with the original argument values
+        if "undo" not in self.want:
+            return new
         try:
             utags = ["U" if not _eq(a, b) else "N" for a, b in zip(ev["post"]["args"], ev["pre"]["args"])]
-            bstruct = str(jax_tree_structure(bwd))
+            bstruct = jax_tree_structure(bwd)
 
             def mk_undo():
                 return lambda k, t, b, a: b.edit(k, t, self.argdiffs(a, utags))
-            u, uw, _, _ = self.fn(_skey(pid, "undo", rkey, utags, bstruct), mk_undo)(k2, new, bwd, old_args)
+            if bstruct is None:      # request that cannot be flattened as a pytree: apply it un-jitted
+                u, uw, _, _ = mk_undo()(k2, new, bwd, old_args)
+            else:
+                u, uw, _, _ = self.fn(_skey(pid, "undo", rkey, utags, bstruct), mk_undo)(k2, new, bwd, old_args)
             ev["undo"] = {"status": "ok", "post": self.proj_trace(pid, u), "w": gb.fx(uw)}
         except Exception as ex:
             ev["undo"] = {"status": ("rejected:" if type(ex).__name__ in ("NotSupportedEditRequest",) else "raised:") + type(ex).__name__,
@@ -277,7 +343,10 @@ class Runner:
 
 def jax_tree_structure(x):
     import jax
-    return jax.tree_util.tree_structure(x)
+    try:
+        return str(jax.tree_util.tree_structure(x))
+    except Exception:
+        return None
 
 
 def _setup_jax():
